@@ -147,7 +147,7 @@ Theorem spec_holds_model : forall manual p extra o x s,
   run_top E C fault manual p extra (init_st []) = (o, x, s) ->
   scoped [] p = true ->
   x_rb (s_fl s) = false -> x_drop (s_fl s) = false ->
-  spec_holds (mk_case manual p extra C None o x (s_db s)
+  spec_holds (mk_case manual p extra [] C None o x [] (s_db s)
                 (fst (pool E (rev (s_txlog s)))) (snd (pool E (rev (s_txlog s)))) (rev (s_ops s))) = true.
 Proof.
   intros manual p extra o x s H Hsc Hrb Hdr.
